@@ -6,7 +6,7 @@ git -C /repo worktree add -q $wt HEAD || exit 2
 cp /repo/config.h $wt/; cp /repo/include/libast/{sysdefs,types}.h $wt/include/libast/
 if [ "$1" = "-e" ]; then sed -i "$2" $wt/$3; else git -C $wt apply "$1" || { echo "patch failed"; git -C /repo worktree remove --force $wt; exit 2; }; fi
 git -C $wt diff --stat | tail -1
-VERIF_REPO=$wt /verif/check $prop --unit "$unit" --no-evidence 2>&1 | tail -${TAIL:-8}
+VERIF_REPO=$wt /verif/check $prop --unit "$unit" --no-evidence --jobs ${VERIF_JOBS:-8} 2>&1 | tail -${TAIL:-8}
 rc=${PIPESTATUS[0]}
 git -C /repo worktree remove --force $wt
 exit $rc
